@@ -2,6 +2,8 @@ import Firebolt.Model.Limiter
 import Firebolt.Properties.C07
 import Firebolt.Generated.Skeleton
 import Firebolt.Expected.Skeleton
+import Firebolt.Generated.Source
+import Firebolt.Expected.Source
 /-!
 # C19 — Parallel recovery never exceeds its configured rate
 
@@ -106,5 +108,10 @@ theorem expected_limiter_facts :
 /-- non-vacuity: a bucket of 2 tokens/unit-time… 3 grants from a full bucket of burst 2 need one token's time -/
 example : run 10 20 ⟨20, 0, 0⟩ [.grant, .grant, .advance 10, .grant] = some ⟨0, 10, 30⟩ ∧
           run 10 20 ⟨20, 0, 0⟩ [.grant, .grant, .advance 9, .grant] = none := by decide
+
+
+/-! ### the functions this model was transcribed from are unchanged (regenerated from /repo on every run) -/
+theorem source_newRecoveryConsumer : GeneratedSrc.newRecoveryConsumer = ExpectedSrc.newRecoveryConsumer := by rfl
+theorem source_rcRecoverSingleEvent : GeneratedSrc.rcRecoverSingleEvent = ExpectedSrc.rcRecoverSingleEvent := by rfl
 
 end Firebolt.C19
